@@ -197,12 +197,16 @@ Theorem make_cells_tr_den fuel fd fg ts key cell : forall elts st acc ks st', wf
   make_cells_tr tr_eqb fuel fd fg ts key cell elts st acc = Ok (ks, st') ->
   wf st' /\ text st st' /\
   exists news, ks = acc ++ news /\
+    Forall2 (fun k' e => exists ec, lookup e (tcells st') = Some ec /\
+                                    lookup k' (tcells st') = Some (filled_cell key cell e ec
+                                       (cgeom (match lookup k' (tcells st') with Some c => c | None => cell end))))
+            news elts /\
     forall senv D, sem st' senv D ->
       Forall2 (fun k' e => forall p, D k' p = D key p && D e (fold_right act p ts)) news elts.
 Proof.
   induction elts as [|e r IH]; intros st acc ks st' Hwf Hk H; cbn [make_cells_tr] in H.
   - injection H as <- <-. split; [exact Hwf|]. split; [apply text_refl|].
-    exists []. split; [rewrite app_nil_r; reflexivity|]. intros; constructor.
+    exists []. split; [rewrite app_nil_r; reflexivity|]. split; [constructor|intros; constructor].
   - destruct (lookup e (tcells st)) as [ec|] eqn:Ee; [|discriminate].
     destruct (ctransform_chain tr_eqb fuel ts (negb fg) e st) as [[e' s1]|er] eqn:Ec; [|discriminate].
     destruct (lookup e' (tcells s1)) as [ec'|] eqn:Ee'; [|discriminate].
@@ -216,9 +220,15 @@ Proof.
     { split; [apply add_cell_bounded; exact Hb1|]. split; [exact Hs1|].
       intros senv D Hsem c0 t0 k0 Hin p. apply (Hc1 senv D (sem_mono _ _ _ _ Ht2 Hsem) _ _ _ Hin). }
     assert (Hk2 : lookup key (tcells st2) = Some cell) by (apply (proj1 Ht2), (proj1 Ht1); exact Hk).
-    destruct (IH _ _ _ _ Hw2 Hk2 H) as [Hw3 [Ht3 [news [Hks Hn]]]].
+    destruct (IH _ _ _ _ Hw2 Hk2 H) as [Hw3 [Ht3 [news [Hks [Hrec3 Hn]]]]].
     split; [exact Hw3|]. split; [apply (text_trans _ _ _ Ht1 (text_trans _ _ _ Ht2 Ht3))|].
+    assert (Hnew0 : lookup (tckey s1 + 1) (tcells st2) = Some (filled_cell key cell e ec g)).
+    { cbn [st2 tcells]. rewrite lookup_update, Z.eqb_refl. reflexivity. }
     exists ((tckey s1 + 1) :: news). split; [rewrite Hks, <- app_assoc; reflexivity|].
+    split.
+    { constructor; [|exact Hrec3]. exists ec.
+      split; [apply (proj1 Ht3), (proj1 Ht2), (proj1 Ht1); exact Ee|].
+      rewrite (proj1 Ht3 _ _ Hnew0). unfold filled_cell. cbn [cgeom]. reflexivity. }
     intros senv D Hsem. constructor; [|apply (Hn senv D Hsem)].
     intros p. pose proof (sem_mono _ _ _ _ Ht3 Hsem) as Hsem2. pose proof Hsem2 as [_ Hco].
     assert (Hnew : lookup (tckey s1 + 1) (tcells st2) = Some (filled_cell key cell e ec g)).
